@@ -201,8 +201,13 @@ func (p *cparser) top() CExpr {
 				p.fail("quantifier variable expected")
 			}
 			ty := "int"
+			star := ""
+			for p.isOp("*") {
+				p.next()
+				star += "*"
+			}
 			if p.peek().k == "id" {
-				ty = p.next().v
+				ty = star + p.next().v
 				for p.isOp(".") {
 					p.next()
 					ty += "." + p.next().v
